@@ -3,13 +3,14 @@ module verifharness
 go 1.26.3
 
 require (
+	github.com/BurntSushi/toml v1.4.0
 	github.com/anishathalye/porcupine v1.3.0
 	github.com/influxdata/influxdb/v2 v2.0.0-00010101000000-000000000000
+	github.com/influxdata/influxql v1.4.1
 	pgregory.net/rapid v1.3.0
 )
 
 require (
-	github.com/BurntSushi/toml v1.4.0 // indirect
 	github.com/RoaringBitmap/roaring v0.4.16 // indirect
 	github.com/apache/arrow-go/v18 v18.4.0 // indirect
 	github.com/benbjohnson/immutable v0.4.3 // indirect
@@ -24,9 +25,9 @@ require (
 	github.com/google/flatbuffers v25.9.23+incompatible // indirect
 	github.com/hashicorp/errwrap v1.1.0 // indirect
 	github.com/hashicorp/go-multierror v1.1.1 // indirect
+	github.com/influxdata/cron v0.0.0-20201006132531-4bb0a200dcbe // indirect
 	github.com/influxdata/flux v0.200.0 // indirect
 	github.com/influxdata/httprouter v1.3.1-0.20191122104820-ee83e2772f69 // indirect
-	github.com/influxdata/influxql v1.4.1 // indirect
 	github.com/jsternberg/zap-logfmt v1.2.0 // indirect
 	github.com/jwilder/encoding v0.0.0-20170811194829-b4e1701a28ef // indirect
 	github.com/klauspost/cpuid/v2 v2.2.11 // indirect
